@@ -491,6 +491,18 @@ func hostileObfs4(c *mon.Case, r *mon.Run, dir string, victimRole string, attack
 		f := rc.Enc.Frame(ref.Packet(ref.PacketPayload, st.Bytes(int64(pre), 1427), 0))
 		rc.Conn.Write(f[:len(f)-1])
 		expectErr = false
+	case "frame-length-field-out-of-range":
+		// the sender knows the length mask, so it can make the field decode to
+		// any value; followed by enough valid frames for the decoder to go on
+		f := rc.Enc.Frame(ref.Packet(ref.PacketPayload, st.Bytes(int64(pre), 1427), 0))
+		mask := binary.BigEndian.Uint16(f[:2]) ^ uint16(len(f)-2)
+		want := []int{1447, 1448, 1449, 0, 1, 15, 2000, 65535}[rng.IntN(8)]
+		binary.BigEndian.PutUint16(f, uint16(want)^mask)
+		out := append([]byte{}, f...)
+		for k := 0; k < 3; k++ {
+			out = append(out, rc.Enc.Frame(ref.Packet(ref.PacketPayload, make([]byte, 1427), 0))...)
+		}
+		rc.Conn.Write(out)
 	case "garbage-4MiB":
 		blk := make([]byte, 65536)
 		for i := 0; i < 64; i++ {
@@ -614,12 +626,16 @@ func TestCheck(t *testing.T) {
 		}
 	}
 	// (c) hostile key-holding obfs4 peer
-	attacks := []string{"payload-length-beyond-packet", "payload-length-65535", "packet-shorter-than-header", "unknown-packet-type", "seed-packet-wrong-length", "seed-packet-to-server-or-second-seed", "empty-frames-flood", "frame-never-completed", "garbage-4MiB"}
+	attacks := []string{"payload-length-beyond-packet", "payload-length-65535", "packet-shorter-than-header", "unknown-packet-type", "seed-packet-wrong-length", "seed-packet-to-server-or-second-seed", "frame-length-field-out-of-range", "empty-frames-flood", "frame-never-completed", "garbage-4MiB"}
 	for _, role := range []string{"server", "client"} {
 		for _, a := range attacks {
 			role, a := role, a
 			r.Bubble(fmt.Sprintf("hostile/%s/%s", role, a), func(c *mon.Case) {
-				for i := 0; i < r.Pick(2, 24); i++ {
+				n := r.Pick(8, 48)
+				if a == "empty-frames-flood" || a == "garbage-4MiB" {
+					n = r.Pick(1, 6)
+				}
+				for i := 0; i < n; i++ {
 					hostileObfs4(c, r, dir, role, a, r.Sub("h", role, a, i))
 				}
 			})
